@@ -1,6 +1,6 @@
 (* C10 — Channeled subscribers: same stream, own thread, own backpressure policy.
-   Statements only; proofs in ChannelProofs.v, WorldSubs.v. *)
-From RS Require Import Base Channel ChannelProofs Pipeline Script World Hist WorldProofs WorldInv WorldQueue WorldStop WorldSubs.
+   Statements only; proofs in ChannelProofs.v, WorldSubs.v, WorldFlush.v. *)
+From RS Require Import Base Channel ChannelProofs Pipeline Script World Hist WorldProofs WorldInv WorldQueue WorldStop WorldSubs WorldFlush.
 
 Section C10.
 Context {State : Type}.
@@ -31,13 +31,40 @@ Proof.
   intros c x P C B. destruct (drop_oldest_one c x P C B) as (c' & ok & d & H & Q & _). eauto.
 Qed.
 
-(* C10_partial: "called on its own thread" and "unsubscribe()/stop() return only after everything
-   queued has been delivered, and nothing is delivered afterwards" hold in the model by
-   construction of step_chan / the join steps (PUnsubJoin, RClearJoin); they are decided by engine
-   L (probe that unsubscribe waits while the subscriber is inside on_notify) and the C10 monitor,
-   not yet stated as theorems over histories. *)
+(* "unsubscribe() and stop() return only after everything already queued for it has been
+   delivered, and nothing is delivered afterwards" (programs without state iterators, every
+   schedule): both joins wait for the subscriber's thread to end (C10_joins_wait); a thread that
+   has ended left a disconnected, EMPTY channel behind - with the blocking policy it received
+   exactly what was forwarded (C10_flush); and it never runs again (C10_silent_after). *)
+Theorem C10_flush : forall reducers mws progs w sid c,
+  Forall (Forall (fun c => match c with CIter _ _ _ | CNext _ | CDropIter _ | CDrain _ => False | _ => True end)) progs ->
+  reachable cfg reducers mws progs w ->
+  get_thread (w_threads w) (chan_tid sid) = Some (TChan sid true) ->
+  get_chan (w_chans w) sid = Some c ->
+  q c = [] /\ tx_alive c = false /\
+  (pol c = Block -> subsends sid (w_hist w) = subrecvs sid (w_hist w)).
+Proof. intros reducers mws progs w sid c FP R G GC. exact (ended_means_flushed cfg reducers mws progs w sid c FP R G GC). Qed.
+
+Theorem C10_joins_wait : forall (w w' : world (State := State)) t r prog sid rest f,
+  get_thread (w_threads w) (chan_tid sid) = Some (TChan sid f) ->
+  (step_client w t r prog (PUnsubJoin sid) = Some w' -> f = true) /\
+  (step_reducer cfg w (RClearJoin sid rest) = Some w' -> f = true).
+Proof.
+  intros w w' t r prog sid rest f G. split; [apply (unsub_join_needs_end w t r prog sid f w' G)|
+  apply (clear_join_needs_end cfg w sid rest f w' G)].
+Qed.
+
+Theorem C10_silent_after : forall (w : world (State := State)) t sid,
+  get_thread (w_threads w) t = Some (TChan sid true) -> step cfg w t = None.
+Proof. intros w t sid G. exact (ended_thread_silent cfg w t sid G). Qed.
+
+(* C10_partial: "called on its own thread" holds in the model by construction of step_chan (the
+   callback event carries the context XChan sid); engine L and the C10 monitor decide it on the code. *)
 End C10.
 
 Print Assumptions C10_stream.
 Print Assumptions C10_never_stalls.
 Print Assumptions C10_newest_kept.
+Print Assumptions C10_flush.
+Print Assumptions C10_joins_wait.
+Print Assumptions C10_silent_after.
